@@ -272,12 +272,15 @@ impl Minimizer {
                             if let Some(simple) = simplest_of_kind(op) {
                                 alts.push(wrap(simple));
                             }
-                            if let Op::Fmt { a, var, w, p, pauses, err_at } = op {
-                                if !pauses.is_empty() || *err_at != 0 {
-                                    alts.push(wrap(Op::Fmt { a: *a, var: *var, w: *w, p: *p, pauses: vec![], err_at: 0 }));
+                            if let Op::Fmt { a, var, w, p, pauses, err_at, reent } = op {
+                                if !pauses.is_empty() || *err_at != 0 || *reent {
+                                    alts.push(wrap(Op::Fmt { a: *a, var: *var, w: *w, p: *p, pauses: vec![], err_at: 0, reent: false }));
+                                }
+                                if *reent {
+                                    alts.push(wrap(Op::Fmt { a: *a, var: *var, w: *w, p: *p, pauses: pauses.clone(), err_at: *err_at, reent: false }));
                                 }
                                 if *var != 0 || *w != 0 {
-                                    alts.push(wrap(Op::Fmt { a: *a, var: 0, w: 0, p: *p, pauses: pauses.clone(), err_at: *err_at }));
+                                    alts.push(wrap(Op::Fmt { a: *a, var: 0, w: 0, p: *p, pauses: pauses.clone(), err_at: *err_at, reent: *reent }));
                                 }
                             }
                             if die {
